@@ -50,6 +50,7 @@ pub fn dispatch(op: &str, req: &Value) -> Option<String> {
                 "pref_double" => AsciiEscape::with_preferred_quote(&b, Quote::Double),
                 "forced_single" => AsciiEscape::with_forced_quote(&b, Quote::Single),
                 "forced_double" => AsciiEscape::with_forced_quote(&b, Quote::Double),
+                m if m.starts_with("named:") => AsciiEscape::new(&b, AsciiEscape::named_repr_layout(&b, &m[6..])),
                 _ => AsciiEscape::new_repr(&b),
             };
             let disp = format!("{}", e.bytes_repr());
